@@ -136,6 +136,9 @@ func (g Gateway) RegisterSwamp(_ context.Context, in *hydrapb.RegisterSwampReque
 		// return with grpc error message
 		return nil, status.Error(codes.InvalidArgument, "SwampPattern cannot be empty")
 	}
+	if !hasThreeNameParts(in.SwampPattern) {
+		return nil, status.Error(codes.InvalidArgument, "SwampPattern must have the form sanctuary/realm/swamp")
+	}
 
 	// try to create the pattern from the input string
 	swampPattern := name.Load(in.SwampPattern)
@@ -180,6 +183,9 @@ func (g Gateway) DeRegisterSwamp(_ context.Context, in *hydrapb.DeRegisterSwampR
 	if in.SwampPattern == "" {
 		// return with grpc error message
 		return nil, status.Error(codes.InvalidArgument, "SwampPattern cannot be empty")
+	}
+	if !hasThreeNameParts(in.SwampPattern) {
+		return nil, status.Error(codes.InvalidArgument, "SwampPattern must have the form sanctuary/realm/swamp")
 	}
 
 	// try to create the pattern from the input string
@@ -1241,6 +1247,12 @@ func (g Gateway) DestroyBulk(stream hydrapb.HydraideService_DestroyBulkServer) e
 		go func() {
 			defer wg.Done()
 			for target := range workCh {
+				if !hasThreeNameParts(target.GetSwampName()) {
+					// a worker goroutine has no panic recovery: an unchecked name.Load here kills the process
+					failed.Add(1)
+					lastError.Store(fmt.Sprintf("%q: swamp name must have the form sanctuary/realm/swamp", target.GetSwampName()))
+					continue
+				}
 				swampName := name.Load(target.GetSwampName())
 				swampInterface, err := hydraInterface.SummonSwamp(stream.Context(), target.GetIslandID(), swampName)
 				if err != nil {
@@ -2926,6 +2938,12 @@ func parseOptionalTimestamps(from, to *timestamppb.Timestamp) (fromTime, toTime 
 	return
 }
 
+// hasThreeNameParts reports whether the name has at least the three '/'-separated
+// parts (sanctuary/realm/swamp) that name.Load requires.
+func hasThreeNameParts(n string) bool {
+	return strings.Count(n, "/") >= 2
+}
+
 func handlePanic() {
 	if r := recover(); r != nil {
 		// get the stack trace
@@ -2943,6 +2961,10 @@ func checkSwampName(zeusInterface zeus.Zeus, islandID uint64, inputSwampName str
 	if inputSwampName == "" {
 		// return with grpc error message
 		return nil, status.Error(codes.InvalidArgument, "SwampName cannot be empty")
+	}
+	if !hasThreeNameParts(inputSwampName) {
+		// name.Load indexes the three '/'-separated parts; refuse anything shorter instead of panicking
+		return nil, status.Error(codes.InvalidArgument, "SwampName must have the form sanctuary/realm/swamp")
 	}
 	swampName := name.Load(inputSwampName)
 
